@@ -422,6 +422,20 @@ func (c *Ctx) boundsRule(printerPart bool) {
 						okErr = true // "return err" with err = third result of the call
 					}
 				}
+				// ... or the loop's own test: the call is only reached while an error variable, which every round sets to
+				// the call's error result, is nil
+				if !okErr {
+					for _, l := range guardLits(mfCall.Guard) {
+						if l.Op == "bin" && l.Name == "==" && len(l.Args) == 2 && l.Args[1].IsNil() && l.Args[0].Op == "atom" {
+							if ephi := phiOfAtom(decodeFr, l.Args[0]); ephi != nil {
+								_, eb := phiEdges(decodeFr, ephi)
+								if len(eb) == 1 && eb[0].Op == "extract" && eb[0].Name == "2" {
+									okErr = true
+								}
+							}
+						}
+					}
+				}
 				if !okErr {
 					okNil = false
 					detail += " (no 'return err' after the call)"
